@@ -337,6 +337,21 @@ BP_UNIT = dict(name="c01_bitstar_publishSolution", template="C01/bit_publish.c",
                          dict(name="flag_for_another_cost", where="body:bit_publish", rx=r"OBJ_SATISFIED\(bestCost_\)", repl="OBJ_SATISFIED(bestCost_ + 1.0)")])
 UNITS.append(BP_UNIT)
 
+PT_RULES = [
+    (r"std::vector<std::shared_ptr<(?:Vertex|State)>> (?:reversePath|states);", "rev_n = 0;", 0), (r"auto current = (?:vertex|state);", "VRef current = vertex;", 0), (r"graph_\.isStart\(current\)", "IS_START(current)", 0),
+    (r"assert\((?:[^()]|\((?:[^()]|\([^()]*\))*\))*\);", "", 0), (r"(?:reversePath|states)\.emplace_back\(current\);", "REV_PUSH(current);", 0),
+    (r"current = current->getForwardParent\(\);", "current = V_parent[current];", 0), (r"current = current->asForwardVertex\(\)->getParent\(\)\.lock\(\)->getState\(\);", "current = V_parent[current];", 0),
+    (r"auto path = std::make_shared<ompl::geometric::PathGeometric>\((?:Planner::si_|spaceInfo_)\);", "path_n = 0;", 0),
+    (r"for \(const auto &vertex : boost::adaptors::reverse\(reversePath\)\)\s*\{\s*path->append\(vertex->getState\(\)\);\s*\}", "for (unsigned r_ = rev_n; r_ > 0; --r_) { PATH_APPEND(rev[r_ - 1]); }", 0),
+    (r"for \(auto it = states\.crbegin\(\); it != states\.crend\(\); \+\+it\)\s*\{\s*path->append\(\(\*it\)->raw\(\)\);\s*\}", "for (unsigned r_ = rev_n; r_ > 0; --r_) { PATH_APPEND(rev[r_ - 1]); }", 0),
+    (r"return path;", "return;", 0),
+]
+for _pl, _f, _sig in (("aitstar", "src/ompl/geometric/planners/informedtrees/src/AITstar.cpp", r"AITstar::getPathToVertex\(const std::shared_ptr<Vertex> &vertex\) const"),
+                      ("eitstar", "src/ompl/geometric/planners/informedtrees/src/EITstar.cpp", r"EITstar::getPathToState\(const std::shared_ptr<eitstar::State> &state\) const")):
+    UNITS.append(dict(name="c01_%s_path_extraction" % _pl, template="C01/path_to.c", mode="plain", entry="h_path_to", flags=["--bounds-check", "--pointer-check"], unwind=8, level="bounded", bound="chains of <= 4 vertices", backend="minisat", timeout=300,
+                      functions=["ompl::geometric::" + _sig.split("\\(")[0]], sources=[dict(name="path_to", file=_f, sig=_sig, rules=PT_RULES, loops={"allow_uncontracted": True})],
+                      canaries=[dict(name="start_vertex_left_out", where="body:path_to", rx=r"\}\s*REV_PUSH\(current\);", repl="}")]))
+
 # roadmap planners: a new problem definition forgets the old query's start/goal milestones (otherwise the old query's path is reported for the new one) -- units of C03
 def _c03_query_units():
     sp = importlib.util.spec_from_file_location("c03q", os.path.join(os.path.dirname(__file__), "C03.py")); m = importlib.util.module_from_spec(sp)
